@@ -1075,6 +1075,18 @@ impl World {
                         self.res.viol("C03", "committed-block-not-in-storage", a.to_string());
                     }
                 }
+                // a pack written by this very commit can complete a foreign block that was lying in storage
+                // held back for want of exactly that pack (same objects, same bytes): storage then holds
+                // something the live replica has not applied until its next refresh, like after a meld
+                if !self.reps[i].behind {
+                    let rs = refmodel::build(&files);
+                    let m = &self.reps[i].m;
+                    let unlocked = rs.complete.iter().any(|st| DeltaId::from(st).ok().and_then(|id| m.get_delta(&id).ok().flatten()).map(|d| d.verif_status() != "applied").unwrap_or(false));
+                    if unlocked {
+                        self.reps[i].behind = true;
+                        self.res.feat_add("own_pack_completed_a_held_back_block", 1);
+                    }
+                }
                 // C03: reopen on the same storage
                 if !self.reps[i].behind {
                     let caps = self.prof.clone().pick_caps(&mut self.r);
